@@ -1279,7 +1279,9 @@ class BaseCfgLine(object):
         text_before_replace = self._text
 
         text_after_replace = re.sub(regex, replacergx, self._text)
-        self.text = text_after_replace
+        if text_before_replace != text_after_replace:
+            # Only touch this line if the substitution changed it
+            self.text = text_after_replace
 
 
         if self.confobj and text_before_replace != text_after_replace:
